@@ -5,7 +5,7 @@ package px
 import (
 	"bytes"
 	"context"
-	"encoding/json"
+	"encoding/gob"
 	"errors"
 	"fmt"
 	"math"
@@ -799,9 +799,16 @@ func Run(p *Prog, argv []string, dispatch bool) (oc *Outcome) {
 
 // CloneProg - deep copy of a program definition.
 func CloneProg(p *Prog) *Prog {
-	b, _ := json.Marshal(p)
+	// gob, not JSON: names and values may hold bytes that are not valid UTF-8
+	var buf bytes.Buffer
 	var q Prog
-	_ = json.Unmarshal(b, &q)
+	if err := gob.NewEncoder(&buf).Encode(p); err != nil {
+		panic(err)
+	}
+	if err := gob.NewDecoder(&buf).Decode(&q); err != nil {
+		panic(err)
+	}
+	fixUnknown(p.Root, q.Root)
 	return &q
 }
 
@@ -825,3 +832,7 @@ func (p *Prog) CmdAt(path string) *Cmd {
 	}
 	return c
 }
+
+// fixUnknown - gob drops zero values and keeps pointers' structure; nothing to repair today, kept as the single place
+// where a field that must survive a clone would be restored.
+func fixUnknown(a, b *Cmd) {}
